@@ -389,5 +389,21 @@ theorem shape_pawn {p : Pos} {m : Move} (hb : p.board m.src = some (.pawn, p.stm
       rw [apply_board_ep hep hnc hq, hmv]
     · cases hx
 
+theorem pseudoLegal_shape {p : Pos} {m : Move} (h : pseudoLegal p m = true) : Shape p m := by
+  unfold pseudoLegal at h
+  split at h
+  · cases h
+  · rename_i pc c' hb
+    simp only [Bool.and_eq_true, beq_iff_eq, bne_iff_ne] at h
+    obtain ⟨⟨hc, hd⟩, h⟩ := h
+    subst hc
+    split at h
+    · exact shape_pawn hb hd h
+    · exact shape_king hb hd h
+    · rename_i hp hk
+      refine shape_other hb hd (fun e => hp e) ?_ h
+      simp only [isCastle, hb]
+      cases pc <;> simp at hk ⊢
+
 end Closure
 end Chess
